@@ -13,3 +13,55 @@ package helpers
 //@   loop 0 invariant len(a) == len(b)
 //@   loop 0 invariant forall k int :: 0 <= k && k <= rangeindex ==> a[k] == b[k]
 //@   loop 0 decreases len(a) - rangeindex
+
+// ----------------------------------------------------------------------------------------------
+// C01 / C16: WTF-8 codec (generalised UTF-8: surrogate code points are encoded like any other three-byte
+// code point). Spec source: https://simonsapin.github.io/wtf-8/ and RFC 3629 bit layouts.
+//@ spec func wtf8Len(r rune) int = r <= 0x7F ? 1 : (r <= 0x7FF ? 2 : (r <= 0xFFFF ? 3 : 4))
+//@ spec func wtf8Byte(r rune, k int) byte =
+//@     r <= 0x7F ? byte(r) :
+//@     (r <= 0x7FF ? (k == 0 ? byte(0xC0 | (r >> 6)) : byte(0x80 | (r & 0x3F))) :
+//@     (r <= 0xFFFF ? (k == 0 ? byte(0xE0 | (r >> 12)) : (k == 1 ? byte(0x80 | ((r >> 6) & 0x3F)) : byte(0x80 | (r & 0x3F)))) :
+//@                    (k == 0 ? byte(0xF0 | (r >> 18)) : (k == 1 ? byte(0x80 | ((r >> 12) & 0x3F)) : (k == 2 ? byte(0x80 | ((r >> 6) & 0x3F)) : byte(0x80 | (r & 0x3F)))))))
+//@ spec func validCodePoint(r rune) bool = 0 <= r && r <= 0x10FFFF
+
+//@ func encodeWTF8Rune
+//@   arith bv
+//@   safety
+//@   prop C01 C16
+//@   requires len(p) >= 4
+//@   ensures width: validCodePoint(r) ==> result == wtf8Len(r)
+//@   ensures bytes: validCodePoint(r) ==> (forall k int :: 0 <= k && k < wtf8Len(r) ==> p[k] == wtf8Byte(r, k))
+//@   ensures replacement: !validCodePoint(r) ==> result == 3 && p[0] == 0xEF && p[1] == 0xBF && p[2] == 0xBD
+
+//@ func DecodeWTF8Rune
+//@   arith bv
+//@   safety
+//@   prop C01 C16
+//@   ensures size-range: 0 <= result1 && result1 <= len(s) && result1 <= 4
+//@   ensures progress: len(s) > 0 && result1 == 0 ==> (s[0] >= 0xC0 && len(s) < 4)
+//@   ensures rune-range: validCodePoint(result0)
+//@   ensures no-overlong: result1 == 2 ==> result0 >= 0x80
+//@   ensures no-overlong3: result1 == 3 ==> result0 >= 0x800
+//@   ensures no-overlong4: result1 == 4 ==> result0 >= 0x10000
+//@   ensures inverse: forall r rune :: validCodePoint(r) && len(s) >= wtf8Len(r) &&
+//@       (forall k int :: 0 <= k && k < wtf8Len(r) ==> s[k] == wtf8Byte(r, k)) ==> result0 == r && result1 == wtf8Len(r)
+
+// UTF-16 helpers: never index out of range (surrogate look-ahead) and terminate.
+//@ func ContainsNonBMPCodePointUTF16
+//@   arith int
+//@   safety
+//@   prop C01 C16
+//@   ensures pair: result ==> (exists k int :: 0 <= k && k + 1 < len(text) && text[k] >= 0xD800 && text[k] <= 0xDBFF && text[k+1] >= 0xDC00 && text[k+1] <= 0xDFFF)
+//@   ensures nopair: !result ==> (forall k int :: 0 <= k && k + 1 < len(text) ==> !(text[k] >= 0xD800 && text[k] <= 0xDBFF && text[k+1] >= 0xDC00 && text[k+1] <= 0xDFFF))
+//@   loop 0 invariant -1 <= rangeindex && rangeindex < len(text) - 1 || (len(text) <= 1 && rangeindex == -1)
+//@   loop 0 invariant forall k int :: 0 <= k && k <= rangeindex ==> !(text[k] >= 0xD800 && text[k] <= 0xDBFF && text[k+1] >= 0xDC00 && text[k+1] <= 0xDFFF)
+
+//@ func UTF16EqualsUTF16
+//@   arith int
+//@   safety
+//@   prop C01 C16
+//@   ensures iff: result <==> (len(a) == len(b) && (forall k int :: 0 <= k && k < len(a) ==> a[k] == b[k]))
+//@   loop 0 invariant len(a) == len(b) && (-1 <= rangeindex && rangeindex < len(a) || (len(a) == 0 && rangeindex == -1))
+//@   loop 0 invariant forall k int :: 0 <= k && k <= rangeindex ==> a[k] == b[k]
+
